@@ -350,9 +350,9 @@ func check(id, tier string) int {
 			for s, n := range o.res.KnownHits {
 				merged.KnownHits[s] += n
 			}
-			if len(merged.Samples) < 10 {
+			if len(merged.Samples) < sampleCap() {
 				for _, s := range o.res.Samples {
-					if len(merged.Samples) < 10 {
+					if len(merged.Samples) < sampleCap() {
 						merged.Samples = append(merged.Samples, s)
 					}
 				}
@@ -523,6 +523,13 @@ func check(id, tier string) int {
 	}
 	fmt.Printf("OK property=%s held on everything explored\n", id)
 	return 0
+}
+
+func sampleCap() int {
+	if os.Getenv("VERIF_COLLECT") != "" {
+		return 400
+	}
+	return 10
 }
 
 func raceSignature(id, stderr string) string {
